@@ -651,6 +651,13 @@ func (u *Unit) callOpaque(ev *Ev, f Value, sig *types.Signature, args []Value, x
 		u.havocHeap(st, "callback "+name)
 	}
 	u.assumeTypeInvs(st)
+	if u.c != nil {
+		for _, cl := range u.c.CallEstablishes[ord] {
+			eev := u.specEv(st, x.Pos(), u.name+" call "+ord+" establishes")
+			st.assume(eev.expr(cl.Expr).T)
+			u.assumeNote("callback " + name + " at " + u.name + " " + ord + " is assumed to establish: " + cl.Text)
+		}
+	}
 	if !nopanic {
 		ps := st.clone()
 		pv := u.fresh("panicval", SRef)
